@@ -15,4 +15,11 @@ import jsonschema  # noqa: F401,E402
 print("fdtdx from", os.path.dirname(fdtdx.__file__), "jax", jax.__version__, "x64", jax.config.read("jax_enable_x64"))
 for d in ("evidence", "replays"):
     os.makedirs(os.path.join(ROOT, d), exist_ok=True)
+# every registered check module and the engine must import (catches a syntax slip before any check runs)
+import importlib  # noqa: E402
+import json  # noqa: E402
+
+for c in json.load(open(os.path.join(ROOT, "MANIFEST.json")))["checks"]:
+    importlib.import_module("checks." + c["property_id"].lower())
+importlib.import_module("fdsim.engine")
 print("selfcheck ok")
